@@ -35,6 +35,7 @@ UNIT = dict(
         dict(file="src/lib.rs", path="enum Node"),
         dict(file="src/lib.rs", path="struct Chance", pub_fields=True),
         dict(file="src/lib.rs", path="struct Player", pub_fields=True),
+        dict(raw=open(__file__.rsplit("/units/", 1)[0] + "/prelude/tree_common.rs").read()),
         dict(raw=open(__file__.rsplit("/units/", 1)[0] + "/prelude/ev_spec.rs").read()),
         dict(
             file="src/regret.rs", path="fn expected", ret="res",
